@@ -8,29 +8,14 @@ import (
 	"strings"
 )
 
-// Link-write discipline of the search tree (C17, the removal half of the multiset model).
-//
-// Every assignment in package helper that stores into a child link of a BstNode, into the root
-// of a Bst or into the value of an existing node is classified and justified on a finite table
-// of "worlds": truth assignments to the pointer comparisons the function itself makes.
-//
-//   attach   X.f = fresh      the link is nil in every world the path conditions allow
-//   splice   X.f = N.g        in every allowed world the link overwritten pointed at N and the
-//                             other child of N is nil: no node other than N leaves the tree
-//   replace  N.value = M.value  M is the in-order neighbour of N (finder started at N.l that
-//                             descends along the other link) and M itself is spliced out by a
-//                             call with the parent the finder returned
-//
-// A function with the signature (recv *Bst) f(n, p *BstNode) that splices n is given the
-// precondition "exactly one of recv.root, p.small, p.large points at n", and every call of it has
-// to establish that from a verified finder (a loop that stores parent = node before every
-// node = node.link step).
+// Shared pieces of the tree link discipline (C17): type predicates, the verification of the
+// (node, parent) search loops, and the enumeration of truth assignments. The discipline itself
+// is decided by the path interpretation in c17_paths.go.
 
 type linkAn struct {
-	c       *Ctx
-	info    *types.Info
-	fd      *ast.FuncDecl
-	parents map[ast.Node]ast.Node
+	c    *Ctx
+	info *types.Info
+	fd   *ast.FuncDecl
 }
 
 func helperNamed(t types.Type) string {
@@ -67,18 +52,6 @@ func (la *linkAn) linkSel(e ast.Expr) (*ast.SelectorExpr, bool) {
 	return nil, false
 }
 
-func (la *linkAn) valueSel(e ast.Expr) (*ast.SelectorExpr, bool) {
-	sel, ok := e.(*ast.SelectorExpr)
-	if !ok {
-		return nil, false
-	}
-	tx := la.info.TypeOf(sel.X)
-	if tx == nil || helperNamed(tx) != "BstNode" || sel.Sel.Name != bstF.value {
-		return nil, false
-	}
-	return sel, true
-}
-
 func eqKey(a, b string) string {
 	if a > b {
 		a, b = b, a
@@ -103,63 +76,6 @@ func buildParents(root ast.Node) map[ast.Node]ast.Node {
 	return par
 }
 
-type polCond struct {
-	e   ast.Expr
-	pos bool
-}
-
-// pathConds: the conditions of the ifs enclosing n, with polarity, up to the nearest loop.
-// A condition is dropped when a statement between the start of its branch and n assigns an
-// identifier the condition mentions.
-func (la *linkAn) pathConds(n ast.Node) []polCond {
-	var out []polCond
-	child := n
-	for p := la.parents[child]; p != nil; child, p = p, la.parents[p] {
-		switch x := p.(type) {
-		case *ast.ForStmt, *ast.RangeStmt, *ast.FuncLit:
-			return out
-		case *ast.IfStmt:
-			if child == ast.Node(x.Body) {
-				if la.stableUntil(x.Body, n, x.Cond) {
-					out = append(out, polCond{x.Cond, true})
-				}
-			} else if child == x.Else {
-				if blk, ok := x.Else.(*ast.BlockStmt); !ok || la.stableUntil(blk, n, x.Cond) {
-					out = append(out, polCond{x.Cond, false})
-				}
-			}
-		case *ast.BlockStmt:
-			// earlier `if c { ...exit }` siblings
-			for _, s := range x.List {
-				if s.End() > child.Pos() {
-					break
-				}
-				if is, ok := s.(*ast.IfStmt); ok && is.Else == nil {
-					if _, exits := endsWithExit(is.Body); exits && la.stableBetween(x, s, n, is.Cond) {
-						out = append(out, polCond{is.Cond, false})
-					}
-				}
-			}
-		}
-	}
-	return out
-}
-
-func (la *linkAn) mentioned(e ast.Expr) map[types.Object]bool {
-	m := map[types.Object]bool{}
-	ast.Inspect(e, func(n ast.Node) bool {
-		if id, ok := n.(*ast.Ident); ok {
-			if o := la.info.ObjectOf(id); o != nil {
-				if _, isVar := o.(*types.Var); isVar {
-					m[o] = true
-				}
-			}
-		}
-		return true
-	})
-	return m
-}
-
 func (la *linkAn) assignsAny(s ast.Node, objs map[types.Object]bool, before token.Pos) bool {
 	found := false
 	ast.Inspect(s, func(n ast.Node) bool {
@@ -178,255 +94,29 @@ func (la *linkAn) assignsAny(s ast.Node, objs map[types.Object]bool, before toke
 	return found
 }
 
-func (la *linkAn) stableUntil(blk *ast.BlockStmt, n ast.Node, cond ast.Expr) bool {
-	return !la.assignsAny(blk, la.mentioned(cond), n.Pos())
-}
-
-func (la *linkAn) stableBetween(blk *ast.BlockStmt, after ast.Stmt, n ast.Node, cond ast.Expr) bool {
-	objs := la.mentioned(cond)
-	for _, s := range blk.List {
-		if s.Pos() <= after.Pos() {
-			continue
-		}
-		if s.Pos() >= n.Pos() {
-			break
-		}
-		if la.assignsAny(s, objs, n.Pos()) {
-			return false
-		}
-	}
-	return true
-}
-
-// collectAtoms gathers the comparison atoms of a boolean expression.
-func (la *linkAn) collectAtoms(e ast.Expr, atoms map[string]bool) {
-	switch x := e.(type) {
-	case *ast.ParenExpr:
-		la.collectAtoms(x.X, atoms)
-	case *ast.UnaryExpr:
-		if x.Op == token.NOT {
-			la.collectAtoms(x.X, atoms)
-			return
-		}
-		atoms[exprString(e)] = true
-	case *ast.BinaryExpr:
-		switch x.Op {
-		case token.LAND, token.LOR:
-			la.collectAtoms(x.X, atoms)
-			la.collectAtoms(x.Y, atoms)
-		case token.EQL, token.NEQ:
-			atoms[eqKey(exprString(x.X), exprString(x.Y))] = true
-		default:
-			atoms[exprString(e)] = true
-		}
-	default:
-		atoms[exprString(e)] = true
-	}
-}
-
-func (la *linkAn) evalIn(e ast.Expr, w map[string]bool) bool {
-	switch x := e.(type) {
-	case *ast.ParenExpr:
-		return la.evalIn(x.X, w)
-	case *ast.UnaryExpr:
-		if x.Op == token.NOT {
-			return !la.evalIn(x.X, w)
-		}
-	case *ast.BinaryExpr:
-		switch x.Op {
-		case token.LAND:
-			return la.evalIn(x.X, w) && la.evalIn(x.Y, w)
-		case token.LOR:
-			return la.evalIn(x.X, w) || la.evalIn(x.Y, w)
-		case token.EQL:
-			return w[eqKey(exprString(x.X), exprString(x.Y))]
-		case token.NEQ:
-			return !w[eqKey(exprString(x.X), exprString(x.Y))]
-		}
-	}
-	return w[exprString(e)]
-}
-
-type cand struct {
-	val   ast.Expr
-	conds []polCond
-}
-
-// inlineReturns: the return values of an unexported single-result helper of the package, each
-// with the conditions it is returned under, parameters replaced by the call's arguments.
-func (la *linkAn) inlineReturns(call *ast.CallExpr) []cand {
-	fn := callee(la.info, call)
-	if fn == nil || fn.Exported() {
-		return nil
-	}
-	d := la.c.P.Decls[fn.Origin()]
-	if d == nil || d.Decl.Body == nil || d.Pkg.TypesInfo != la.info || d.Decl.Recv != nil {
-		return nil
-	}
-	fd := d.Decl
-	if fd.Type.Results == nil || fd.Type.Results.NumFields() != 1 {
-		return nil
-	}
-	sub := map[types.Object]ast.Expr{}
-	i := 0
-	for _, f := range fd.Type.Params.List {
-		for _, nm := range f.Names {
-			if i >= len(call.Args) {
-				return nil
-			}
-			if _, ok := call.Args[i].(*ast.Ident); !ok {
-				return nil
-			}
-			sub[la.info.ObjectOf(nm)] = call.Args[i]
-			i++
-		}
-	}
-	// the body may only test and return
-	pure := true
-	ast.Inspect(fd.Body, func(n ast.Node) bool {
-		switch n.(type) {
-		case *ast.AssignStmt, *ast.CallExpr, *ast.ForStmt, *ast.RangeStmt, *ast.IncDecStmt, *ast.GoStmt, *ast.DeferStmt:
-			pure = false
-		}
-		return pure
-	})
-	if !pure {
-		return nil
-	}
-	inner := &linkAn{c: la.c, info: la.info, fd: fd, parents: buildParents(fd)}
-	var out []cand
-	ast.Inspect(fd.Body, func(n ast.Node) bool {
-		r, ok := n.(*ast.ReturnStmt)
-		if !ok || len(r.Results) != 1 {
-			return true
-		}
-		cd := cand{val: la.subst(r.Results[0], sub)}
-		for _, pc := range inner.pathConds(r) {
-			cd.conds = append(cd.conds, polCond{la.subst(pc.e, sub), pc.pos})
-		}
-		out = append(out, cd)
-		return true
-	})
-	return out
-}
-
-// subst copies an expression, replacing parameter identifiers; the copies get the types of the originals.
-func (la *linkAn) subst(e ast.Expr, sub map[types.Object]ast.Expr) ast.Expr {
-	switch x := e.(type) {
-	case *ast.Ident:
-		if r, ok := sub[la.info.ObjectOf(x)]; ok {
-			return r
-		}
-		return x
-	case *ast.ParenExpr:
-		return la.subst(x.X, sub)
-	case *ast.SelectorExpr:
-		n := &ast.SelectorExpr{X: la.subst(x.X, sub), Sel: x.Sel}
-		if tv, ok := la.info.Types[x]; ok {
-			la.info.Types[n] = tv
-		}
-		return n
-	case *ast.UnaryExpr:
-		return &ast.UnaryExpr{Op: x.Op, X: la.subst(x.X, sub), OpPos: x.OpPos}
-	case *ast.BinaryExpr:
-		return &ast.BinaryExpr{X: la.subst(x.X, sub), Op: x.Op, Y: la.subst(x.Y, sub), OpPos: x.OpPos}
-	}
-	return e
-}
-
-type guardedDef struct {
-	val   ast.Expr // nil for a declaration without a value
-	conds []polCond
-	pos   token.Pos
-}
-
-// defsOf: all definitions of a local variable in the function, with their path conditions.
-func (la *linkAn) defsOf(obj types.Object) []guardedDef {
-	var out []guardedDef
-	ast.Inspect(la.fd.Body, func(n ast.Node) bool {
-		switch x := n.(type) {
-		case *ast.ValueSpec:
-			for i, nm := range x.Names {
-				if la.info.ObjectOf(nm) == obj {
-					var v ast.Expr
-					if i < len(x.Values) {
-						v = x.Values[i]
-					}
-					out = append(out, guardedDef{v, la.pathConds(x), x.Pos()})
-				}
-			}
-		case *ast.AssignStmt:
-			for i, l := range x.Lhs {
-				if id, ok := l.(*ast.Ident); ok && la.info.ObjectOf(id) == obj {
-					var v ast.Expr
-					if len(x.Rhs) == len(x.Lhs) {
-						v = x.Rhs[i]
-					} else if len(x.Rhs) == 1 {
-						v = x.Rhs[0]
-					}
-					out = append(out, guardedDef{v, la.pathConds(x), x.Pos()})
-				}
-			}
-		}
-		return true
-	})
-	sort.Slice(out, func(i, j int) bool { return out[i].pos < out[j].pos })
-	return out
-}
-
-// contract: the function splices its first node parameter out of the link its second node
-// parameter (or the receiver's root) holds to it.
-type spliceContract struct {
-	n, p *types.Var
-	recv *types.Var
-	root string // receiver root selector text, e.g. "b.root"
-}
-
-func (la *linkAn) contractOf(fd *ast.FuncDecl) *spliceContract {
-	if fd.Recv == nil || len(fd.Recv.List) != 1 || len(fd.Recv.List[0].Names) != 1 {
-		return nil
-	}
-	rv, _ := la.info.ObjectOf(fd.Recv.List[0].Names[0]).(*types.Var)
-	if rv == nil || helperNamed(rv.Type()) != "Bst" {
-		return nil
-	}
-	var nodes []*types.Var
-	for _, f := range fd.Type.Params.List {
-		for _, nm := range f.Names {
-			v, _ := la.info.ObjectOf(nm).(*types.Var)
-			if v != nil && isNodePtr(v.Type()) {
-				nodes = append(nodes, v)
-			} else {
-				return nil
-			}
-		}
-	}
-	if len(nodes) != 2 || (fd.Type.Results != nil && len(fd.Type.Results.List) > 0) {
-		return nil
-	}
-	root := ""
-	if st, ok := rv.Type().(*types.Pointer).Elem().Underlying().(*types.Struct); ok {
-		for i := 0; i < st.NumFields(); i++ {
-			if isNodePtr(st.Field(i).Type()) {
-				root = rv.Name() + "." + st.Field(i).Name()
-			}
-		}
-	}
-	if root == "" {
-		return nil
-	}
-	return &spliceContract{n: nodes[0], p: nodes[1], recv: rv, root: root}
-}
-
 type finderInfo struct {
 	fn        *types.Func
 	startRoot bool            // starts at the receiver's root
 	startArg  int             // else: index of the parameter it starts at
 	links     map[string]bool // link fields it descends along
+	exitNil   string          // the loop runs while node.<exitNil> != nil: the result has no such child
 }
+
+var finderMemo = map[*types.Func]*finderInfo{}
+var finderDone = map[*types.Func]bool{}
 
 // finderOf verifies the (node, parent) search loop shape of fn.
 func (c *Ctx) finderOf(fn *types.Func) *finderInfo {
+	fn = fn.Origin()
+	if finderDone[fn] {
+		return finderMemo[fn]
+	}
+	fi := c.finderOf1(fn)
+	finderDone[fn], finderMemo[fn] = true, fi
+	return fi
+}
+
+func (c *Ctx) finderOf1(fn *types.Func) *finderInfo {
 	d := c.P.Decls[fn.Origin()]
 	if d == nil || d.Decl.Body == nil {
 		return nil
@@ -517,6 +207,61 @@ func (c *Ctx) finderOf(fn *types.Func) *finderInfo {
 	if !okShape || (!fi.startRoot && fi.startArg < 0) {
 		return nil
 	}
+	// the loop runs while node.d != nil
+	nilTestOn := func(e ast.Expr, obj types.Object) string {
+		be, ok := e.(*ast.BinaryExpr)
+		if !ok || be.Op != token.NEQ || !isNilIdent(be.Y) {
+			return ""
+		}
+		if id, ok := be.X.(*ast.Ident); ok && obj != nil && info.ObjectOf(id) == obj {
+			return "."
+		}
+		if sel, ok := la.linkSel(be.X); ok {
+			if b, ok := sel.X.(*ast.Ident); ok && info.ObjectOf(b) == nodeObj {
+				return sel.Sel.Name
+			}
+		}
+		return ""
+	}
+	// second shape: for next := node.d; next != nil; next = node.d { parent, node = node, next }
+	if init, ok := loop.Init.(*ast.AssignStmt); ok && loop.Post != nil && loop.Cond != nil && len(init.Lhs) == 1 && len(init.Rhs) == 1 && len(loop.Body.List) == 1 {
+		nx, okN := init.Lhs[0].(*ast.Ident)
+		isel, okI := la.linkSel(init.Rhs[0])
+		post, okP := loop.Post.(*ast.AssignStmt)
+		body, okB := loop.Body.List[0].(*ast.AssignStmt)
+		if okN && okI && okP && okB && len(post.Lhs) == 1 && len(post.Rhs) == 1 && len(body.Lhs) == 2 && len(body.Rhs) == 2 {
+			nxObj := info.ObjectOf(nx)
+			psel, okPS := la.linkSel(post.Rhs[0])
+			pl, okPL := post.Lhs[0].(*ast.Ident)
+			onNode := func(sel *ast.SelectorExpr) bool {
+				b, ok := sel.X.(*ast.Ident)
+				return ok && info.ObjectOf(b) == nodeObj
+			}
+			l0, ok0 := body.Lhs[0].(*ast.Ident)
+			l1, ok1 := body.Lhs[1].(*ast.Ident)
+			r0, ok2 := body.Rhs[0].(*ast.Ident)
+			r1, ok3 := body.Rhs[1].(*ast.Ident)
+			if okPS && okPL && info.ObjectOf(pl) == nxObj && onNode(isel) && onNode(psel) && isel.Sel.Name == psel.Sel.Name &&
+				nilTestOn(loop.Cond, nxObj) == "." && ok0 && ok1 && ok2 && ok3 &&
+				info.ObjectOf(l0) == parObj && info.ObjectOf(l1) == nodeObj && info.ObjectOf(r0) == nodeObj && info.ObjectOf(r1) == nxObj {
+				fi.links[isel.Sel.Name] = true
+				fi.exitNil = isel.Sel.Name
+				return fi
+			}
+		}
+		return nil
+	}
+	if loop.Init != nil || loop.Post != nil {
+		return nil
+	}
+	defer func() {
+		if d := ""; loop.Cond != nil {
+			d = nilTestOn(loop.Cond, nil)
+			if d != "" && d != "." && len(fi.links) == 1 && fi.links[d] {
+				fi.exitNil = d
+			}
+		}
+	}()
 	// loop body: [stmts not touching node/parent]; parent = node; advance
 	idx := -1
 	for i, s := range loop.Body.List {
@@ -570,81 +315,6 @@ func isNilIdent(e ast.Expr) bool {
 	return ok && id.Name == "nil"
 }
 
-// bstLinks runs the classification over package helper.
-func (c *Ctx) bstLinks() {
-	run := c.Run
-	hp := c.P.Pkg("helper")
-	info := hp.TypesInfo
-	nWrites, nCalls := 0, 0
-	var fds []*ast.FuncDecl
-	for _, f := range hp.Syntax {
-		if strings.HasSuffix(c.P.Fset.Position(f.Pos()).Filename, "_test.go") {
-			continue
-		}
-		for _, d := range f.Decls {
-			if fd, ok := d.(*ast.FuncDecl); ok && fd.Body != nil {
-				fds = append(fds, fd)
-			}
-		}
-	}
-	contracts := map[*types.Func]*spliceContract{}
-	for _, fd := range fds {
-		la := &linkAn{c: c, info: info, fd: fd}
-		if ct := la.contractOf(fd); ct != nil {
-			if fn, ok := info.ObjectOf(fd.Name).(*types.Func); ok {
-				contracts[fn] = ct
-			}
-		}
-	}
-	for _, fd := range fds {
-		la := &linkAn{c: c, info: info, fd: fd, parents: buildParents(fd)}
-		site := "helper." + fd.Name.Name
-		fnObj, _ := info.ObjectOf(fd.Name).(*types.Func)
-		ct := contracts[fnObj]
-		usesContract := false
-		ast.Inspect(fd.Body, func(n ast.Node) bool {
-			switch x := n.(type) {
-			case *ast.AssignStmt:
-				if x.Tok != token.ASSIGN {
-					return true
-				}
-				for i, l := range x.Lhs {
-					if st, ok := l.(*ast.StarExpr); ok && helperNamed(info.TypeOf(st)) == "BstNode" {
-						nWrites++
-						c.violate("bst-links", site, "node copy", x.Pos(), "a whole tree node is overwritten ("+exprString(l)+"): the link discipline cannot be decided (fails closed)")
-						continue
-					}
-					if len(x.Rhs) != len(x.Lhs) {
-						continue
-					}
-					if sel, ok := la.linkSel(l); ok {
-						nWrites++
-						if la.checkLinkWrite(site, x, sel, x.Rhs[i], ct) {
-							usesContract = true
-						}
-					} else if sel, ok := la.valueSel(l); ok {
-						nWrites++
-						la.checkValueWrite(site, x, sel, x.Rhs[i], contracts)
-					}
-				}
-			case *ast.CallExpr:
-				if fn := callee(info, x); fn != nil {
-					if cc := contracts[fn.Origin()]; cc != nil {
-						nCalls++
-						la.checkSpliceCall(site, x, cc)
-					}
-				}
-			}
-			return true
-		})
-		_ = usesContract
-	}
-	run.Count("bst_link_writes", nWrites)
-	run.Floor("bst_link_writes", 7)
-	run.Count("bst_splice_calls", nCalls)
-	run.Floor("bst_splice_calls", 2)
-}
-
 // worlds enumerates the truth assignments over atoms that satisfy the facts and calls f on each.
 func enumWorlds(atoms []string, facts func(w map[string]bool) bool, f func(w map[string]bool)) {
 	n := len(atoms)
@@ -674,267 +344,6 @@ func worldText(w map[string]bool, keys []string) string {
 	return strings.Join(parts, ", ")
 }
 
-// aliasFacts: a local with the single definition V := X.f names the node X.f points at.
-func (la *linkAn) aliasFacts(before token.Pos) map[string]bool {
-	out := map[string]bool{}
-	count := map[types.Object]int{}
-	def := map[types.Object]ast.Expr{}
-	ast.Inspect(la.fd.Body, func(n ast.Node) bool {
-		if as, ok := n.(*ast.AssignStmt); ok {
-			for i, l := range as.Lhs {
-				if id, ok := l.(*ast.Ident); ok {
-					o := la.info.ObjectOf(id)
-					count[o]++
-					if len(as.Rhs) == len(as.Lhs) && as.Pos() < before {
-						def[o] = as.Rhs[i]
-					}
-				}
-			}
-		}
-		return true
-	})
-	for o, e := range def {
-		if count[o] != 1 {
-			continue
-		}
-		if sel, ok := la.linkSel(e); ok {
-			out[eqKey(o.Name(), exprString(sel))] = true
-		}
-	}
-	return out
-}
-
-// earlierMutation: a link write or a call of a splicing function that can execute before n in
-// this function invalidates the facts read from conditions.
-func (la *linkAn) earlierMutation(n ast.Node, contracts func(*ast.CallExpr) bool) ast.Node {
-	var hit ast.Node
-	contains := func(outer, inner ast.Node) bool { return outer.Pos() <= inner.Pos() && inner.End() <= outer.End() }
-	ast.Inspect(la.fd.Body, func(m ast.Node) bool {
-		if m == nil || hit != nil || m == n || m.Pos() >= n.Pos() {
-			return m != nil && hit == nil && m.Pos() < n.Pos()
-		}
-		mut := false
-		switch x := m.(type) {
-		case *ast.AssignStmt:
-			for _, l := range x.Lhs {
-				if _, ok := la.linkSel(l); ok {
-					mut = true
-				}
-			}
-		case *ast.CallExpr:
-			mut = contracts(x)
-		}
-		if !mut {
-			return true
-		}
-		// the innermost branch block holding m must also hold n, and must not end in an exit
-		for p := la.parents[m]; p != nil; p = la.parents[p] {
-			if blk, ok := p.(*ast.BlockStmt); ok {
-				if _, isIf := la.parents[blk].(*ast.IfStmt); isIf || la.parents[blk] == ast.Node(la.fd) {
-					if contains(blk, n) {
-						hit = m
-					}
-					return true
-				}
-			}
-		}
-		return true
-	})
-	return hit
-}
-
-func (la *linkAn) checkLinkWrite(site string, as *ast.AssignStmt, lhs *ast.SelectorExpr, rhs ast.Expr, ct *spliceContract) bool {
-	c := la.c
-	lhsText := exprString(lhs)
-	conds := la.pathConds(as)
-	atoms := map[string]bool{}
-	for _, pc := range conds {
-		la.collectAtoms(pc.e, atoms)
-	}
-	alias := la.aliasFacts(as.Pos())
-	for k := range alias {
-		atoms[k] = true
-	}
-	// the value stored: follow local definitions
-	var cands []cand
-	if id, ok := rhs.(*ast.Ident); ok && !isNilIdent(rhs) {
-		obj := la.info.ObjectOf(id)
-		isParam := false
-		if v, ok := obj.(*types.Var); ok {
-			for _, f := range la.fd.Type.Params.List {
-				for _, nm := range f.Names {
-					if la.info.ObjectOf(nm) == v {
-						isParam = true
-					}
-				}
-			}
-		}
-		if isParam {
-			cands = append(cands, cand{rhs, nil})
-		} else {
-			for _, d := range la.defsOf(obj) {
-				if d.pos < as.Pos() {
-					for _, pc := range d.conds {
-						la.collectAtoms(pc.e, atoms)
-					}
-					cands = append(cands, cand{d.val, d.conds})
-				}
-			}
-		}
-	} else {
-		cands = append(cands, cand{rhs, nil})
-	}
-	// a value computed by an unexported helper of the package: its returns, with their conditions
-	var expanded []cand
-	for _, cd := range cands {
-		if call, ok := cd.val.(*ast.CallExpr); ok {
-			if inl := la.inlineReturns(call); inl != nil {
-				for _, r := range inl {
-					for _, pc := range r.conds {
-						la.collectAtoms(pc.e, atoms)
-					}
-					expanded = append(expanded, cand{r.val, append(append([]polCond{}, cd.conds...), r.conds...)})
-				}
-				continue
-			}
-		}
-		expanded = append(expanded, cd)
-	}
-	cands = expanded
-	// fresh node: attach
-	fresh := false
-	if len(cands) == 1 && cands[0].val != nil {
-		if u, ok := cands[0].val.(*ast.UnaryExpr); ok && u.Op == token.AND {
-			_, fresh = u.X.(*ast.CompositeLit)
-		}
-	}
-	var preAtoms []string
-	usesPre := false
-	if ct != nil {
-		preAtoms = []string{eqKey(ct.n.Name(), ct.root), eqKey(ct.p.Name()+"."+bstF.small, ct.n.Name()), eqKey(ct.p.Name()+"."+bstF.large, ct.n.Name())}
-		for _, a := range preAtoms {
-			atoms[a] = true
-		}
-	}
-	facts := func(w map[string]bool) bool {
-		for _, pc := range conds {
-			if la.evalIn(pc.e, w) != pc.pos {
-				return false
-			}
-		}
-		for k := range alias {
-			if !w[k] {
-				return false
-			}
-		}
-		if ct != nil {
-			n := 0
-			for _, a := range preAtoms {
-				if w[a] {
-					n++
-				}
-			}
-			if n != 1 {
-				return false
-			}
-		}
-		return true
-	}
-	if fresh {
-		need := eqKey(lhsText, "nil")
-		atoms[need] = true
-		keys := sortedKeys(atoms)
-		bad := ""
-		enumWorlds(keys, facts, func(w map[string]bool) {
-			if !w[need] && bad == "" {
-				bad = worldText(w, keys)
-			}
-		})
-		c.Run.Oblige(bad == "")
-		if bad != "" {
-			c.violate("bst-links", site, "attach "+lhsText, as.Pos(), "a new node is stored into "+lhsText+" although the link is not known to be nil there (the subtree it held leaves the tree), e.g. when "+short(bad, 120))
-		}
-		return false
-	}
-	if m := la.earlierMutation(as, func(call *ast.CallExpr) bool {
-		fn := callee(la.info, call)
-		return fn != nil && la.c.finderOf(fn) == nil && la.writesLinks(fn)
-	}); m != nil {
-		c.violate("bst-links", site, "splice "+lhsText, as.Pos(), "the tree is changed earlier on the same path ("+c.P.Pos(m.Pos())+"), so the conditions tested before no longer describe it (undecided, fails closed)")
-		return false
-	}
-	// splice: in every world the stored value is N.g, lhs pointed at N, N's other child is nil
-	type need struct{ tgt, other, n, g string }
-	needOf := func(v ast.Expr) (need, bool) {
-		sel, ok := la.linkSel(v)
-		if !ok {
-			return need{}, false
-		}
-		nid, ok := sel.X.(*ast.Ident)
-		if !ok || helperNamed(la.info.TypeOf(nid)) != "BstNode" {
-			return need{}, false
-		}
-		g := sel.Sel.Name
-		og := bstF.small
-		if g == bstF.small {
-			og = bstF.large
-		}
-		return need{eqKey(lhsText, nid.Name), eqKey(nid.Name+"."+og, "nil"), nid.Name, og}, true
-	}
-	for _, cd := range cands {
-		if cd.val == nil || isNilIdent(cd.val) {
-			continue
-		}
-		nd, ok := needOf(cd.val)
-		if !ok {
-			c.violate("bst-links", site, "splice "+lhsText, as.Pos(), "the value stored into "+lhsText+" ("+exprString(cd.val)+") is neither a new node nor a child of the node being unlinked (undecided, fails closed)")
-			return false
-		}
-		atoms[nd.tgt], atoms[nd.other] = true, true
-	}
-	keys := sortedKeys(atoms)
-	bad, why := "", ""
-	enumWorlds(keys, facts, func(w map[string]bool) {
-		if bad != "" {
-			return
-		}
-		// the definition in force: the last one whose guards hold
-		var cur *cand
-		for i := range cands {
-			holds := true
-			for _, pc := range cands[i].conds {
-				if la.evalIn(pc.e, w) != pc.pos {
-					holds = false
-				}
-			}
-			if holds {
-				cur = &cands[i]
-			}
-		}
-		if cur == nil || cur.val == nil || isNilIdent(cur.val) {
-			bad, why = worldText(w, keys), "nil is stored, so whatever "+lhsText+" held leaves the tree"
-			return
-		}
-		nd, _ := needOf(cur.val)
-		if !w[nd.tgt] {
-			bad, why = worldText(w, keys), lhsText+" is not known to point at "+nd.n+", the node whose child replaces it"
-			return
-		}
-		if !w[nd.other] {
-			bad, why = worldText(w, keys), nd.n+"."+nd.g+" is not known to be nil, so its subtree leaves the tree together with "+nd.n
-		}
-	})
-	c.Run.Oblige(bad == "")
-	if bad != "" {
-		c.violate("bst-links", site, "splice "+lhsText, as.Pos(), "unlinking through "+lhsText+" = "+exprString(rhs)+" can lose nodes: "+why+" (e.g. when "+short(bad, 160)+")")
-	}
-	for _, a := range preAtoms {
-		_ = a
-		usesPre = true
-	}
-	return usesPre
-}
-
 func sortedKeys(m map[string]bool) []string {
 	var ks []string
 	for k := range m {
@@ -942,246 +351,4 @@ func sortedKeys(m map[string]bool) []string {
 	}
 	sort.Strings(ks)
 	return ks
-}
-
-// writesLinks: fn (transitively, within the package) stores into a tree link.
-func (la *linkAn) writesLinks(fn *types.Func) bool {
-	seen := map[*types.Func]bool{}
-	var rec func(fn *types.Func) bool
-	rec = func(fn *types.Func) bool {
-		fn = fn.Origin()
-		if seen[fn] {
-			return false
-		}
-		seen[fn] = true
-		d := la.c.P.Decls[fn]
-		if d == nil || d.Decl.Body == nil || d.Pkg.TypesInfo != la.info {
-			return false
-		}
-		found := false
-		ast.Inspect(d.Decl.Body, func(n ast.Node) bool {
-			switch x := n.(type) {
-			case *ast.AssignStmt:
-				for _, l := range x.Lhs {
-					if _, ok := la.linkSel(l); ok {
-						found = true
-					}
-				}
-			case *ast.CallExpr:
-				if g := callee(la.info, x); g != nil && rec(g) {
-					found = true
-				}
-			}
-			return !found
-		})
-		return found
-	}
-	return rec(fn)
-}
-
-// finderResults: the idents m, p were defined together by `m, p := G(start)` with G a finder.
-func (la *linkAn) finderResults(m, p *ast.Ident) (*finderInfo, *ast.CallExpr, *ast.AssignStmt) {
-	var fi *finderInfo
-	var call *ast.CallExpr
-	var at *ast.AssignStmt
-	mo, po := la.info.ObjectOf(m), la.info.ObjectOf(p)
-	ast.Inspect(la.fd.Body, func(n ast.Node) bool {
-		as, ok := n.(*ast.AssignStmt)
-		if !ok || len(as.Lhs) != 2 || len(as.Rhs) != 1 {
-			return true
-		}
-		l0, ok0 := as.Lhs[0].(*ast.Ident)
-		l1, ok1 := as.Lhs[1].(*ast.Ident)
-		if !ok0 || !ok1 || la.info.ObjectOf(l0) != mo || la.info.ObjectOf(l1) != po {
-			return true
-		}
-		if cl, ok := as.Rhs[0].(*ast.CallExpr); ok {
-			if fn := callee(la.info, cl); fn != nil {
-				if f := la.c.finderOf(fn); f != nil {
-					fi, call, at = f, cl, as
-				}
-			}
-		}
-		return true
-	})
-	return fi, call, at
-}
-
-// checkSpliceCall: the call R(m, p) establishes R's precondition.
-func (la *linkAn) checkSpliceCall(site string, call *ast.CallExpr, cc *spliceContract) {
-	c := la.c
-	detail := "call " + exprString(call.Fun)
-	if len(call.Args) != 2 {
-		c.violate("bst-links", site, detail, call.Pos(), "unexpected argument list (undecided, fails closed)")
-		return
-	}
-	m, ok0 := call.Args[0].(*ast.Ident)
-	p, ok1 := call.Args[1].(*ast.Ident)
-	if !ok0 || !ok1 {
-		c.violate("bst-links", site, detail, call.Pos(), "the node and its parent are not plain variables (undecided, fails closed)")
-		return
-	}
-	fi, fcall, at := la.finderResults(m, p)
-	if fi == nil {
-		c.violate("bst-links", site, detail, call.Pos(), "("+m.Name+", "+p.Name+") are not the (node, parent) results of one search loop that records parent = node before every step: the callee unlinks "+m.Name+" from "+p.Name+" or the root, and would change the wrong link")
-		return
-	}
-	if fi.startRoot {
-		c.ok()
-		return
-	}
-	// started below a node: a nil parent means m is the start itself, whose holder must be substituted
-	if fi.startArg >= len(fcall.Args) {
-		c.violate("bst-links", site, detail, call.Pos(), "finder start argument missing (undecided)")
-		return
-	}
-	start := fcall.Args[fi.startArg]
-	sel, isLink := la.linkSel(start)
-	if !isLink {
-		if helperNamed(la.info.TypeOf(start)) == "BstNode" {
-			// started at an arbitrary node variable: only the root has no holder
-			if s2, ok := start.(*ast.SelectorExpr); !ok || helperNamed(la.info.TypeOf(s2.X)) != "Bst" {
-				c.violate("bst-links", site, detail, call.Pos(), "the search starts at "+exprString(start)+", whose holder is unknown when the loop makes no step (undecided, fails closed)")
-				return
-			}
-		}
-		c.ok()
-		return
-	}
-	holder, _ := sel.X.(*ast.Ident)
-	fixed := false
-	if holder != nil && helperNamed(la.info.TypeOf(holder)) == "Bst" {
-		fixed = true // started at the root link
-	}
-	if holder != nil && !fixed {
-		ast.Inspect(la.fd.Body, func(n ast.Node) bool {
-			is, ok := n.(*ast.IfStmt)
-			if !ok || is.Pos() < at.Pos() || is.Pos() > call.Pos() || is.Else != nil || len(is.Body.List) != 1 {
-				return true
-			}
-			be, ok := is.Cond.(*ast.BinaryExpr)
-			if !ok || be.Op != token.EQL || eqKey(exprString(be.X), exprString(be.Y)) != eqKey(p.Name, "nil") {
-				return true
-			}
-			if as, ok := is.Body.List[0].(*ast.AssignStmt); ok && len(as.Lhs) == 1 && len(as.Rhs) == 1 {
-				l, lok := as.Lhs[0].(*ast.Ident)
-				r, rok := as.Rhs[0].(*ast.Ident)
-				if lok && rok && la.info.ObjectOf(l) == la.info.ObjectOf(p) && la.info.ObjectOf(r) == la.info.ObjectOf(holder) {
-					fixed = true
-				}
-			}
-			return true
-		})
-	}
-	c.Run.Oblige(fixed)
-	if !fixed {
-		c.violate("bst-links", site, detail, call.Pos(), "the search starts at "+exprString(start)+" and returns a nil parent when it makes no step; "+p.Name+" is not replaced by the holder of that link before the call, so the callee unlinks "+m.Name+" through the wrong node")
-	}
-}
-
-// checkValueWrite: N.value = M.value moves the in-order neighbour up.
-func (la *linkAn) checkValueWrite(site string, as *ast.AssignStmt, lhs *ast.SelectorExpr, rhs ast.Expr, contracts map[*types.Func]*spliceContract) {
-	c := la.c
-	detail := "replace " + exprString(lhs)
-	nID, ok := lhs.X.(*ast.Ident)
-	rsel, rok := la.valueSel(rhs)
-	if !ok || !rok {
-		c.violate("bst-links", site, detail, as.Pos(), "the value of a node in the tree is overwritten with "+exprString(rhs)+", which is not the value of another node (undecided, fails closed)")
-		return
-	}
-	mID, ok := rsel.X.(*ast.Ident)
-	if !ok {
-		c.violate("bst-links", site, detail, as.Pos(), "source node is not a variable (undecided, fails closed)")
-		return
-	}
-	// M, P := G(N.l)
-	var fi *finderInfo
-	var fcall *ast.CallExpr
-	var pID *ast.Ident
-	ast.Inspect(la.fd.Body, func(n ast.Node) bool {
-		a, ok := n.(*ast.AssignStmt)
-		if !ok || len(a.Lhs) != 2 || len(a.Rhs) != 1 {
-			return true
-		}
-		l0, ok0 := a.Lhs[0].(*ast.Ident)
-		l1, ok1 := a.Lhs[1].(*ast.Ident)
-		if ok0 && ok1 && la.info.ObjectOf(l0) == la.info.ObjectOf(mID) {
-			if f, cl, _ := la.finderResults(l0, l1); f != nil {
-				fi, fcall, pID = f, cl, l1
-			}
-		}
-		return true
-	})
-	if fi == nil || fi.startRoot || fi.startArg >= len(fcall.Args) {
-		c.violate("bst-links", site, detail, as.Pos(), mID.Name+" is not the result of a verified neighbour search below "+nID.Name)
-		return
-	}
-	start, isLink := la.linkSel(fcall.Args[fi.startArg])
-	okStart := isLink
-	if isLink {
-		h, isID := start.X.(*ast.Ident)
-		okStart = isID && la.info.ObjectOf(h) == la.info.ObjectOf(nID)
-	}
-	if !okStart {
-		c.violate("bst-links", site, detail, as.Pos(), "the node whose value moves up is searched from "+exprString(fcall.Args[fi.startArg])+", not from a child of "+nID.Name)
-		return
-	}
-	l := start.Sel.Name
-	good := len(fi.links) == 1 && !fi.links[l]
-	c.Run.Oblige(good)
-	if !good {
-		c.violate("bst-links", site, detail, as.Pos(), "the replacement is searched from "+exprString(start)+" along "+strings.Join(sortedKeys(fi.links), ",")+": the in-order neighbour is reached by descending along the OTHER link only, otherwise the ordering of the tree is broken")
-	}
-	// N.l is not nil here
-	conds := la.pathConds(as)
-	atoms := map[string]bool{}
-	for _, pc := range conds {
-		la.collectAtoms(pc.e, atoms)
-	}
-	need := eqKey(exprString(start), "nil")
-	atoms[need] = true
-	keys := sortedKeys(atoms)
-	bad := ""
-	enumWorlds(keys, func(w map[string]bool) bool {
-		for _, pc := range conds {
-			if la.evalIn(pc.e, w) != pc.pos {
-				return false
-			}
-		}
-		return true
-	}, func(w map[string]bool) {
-		if w[need] && bad == "" {
-			bad = worldText(w, keys)
-		}
-	})
-	c.Run.Oblige(bad == "")
-	if bad != "" {
-		c.violate("bst-links", site, detail+" start", as.Pos(), exprString(start)+" can be nil where the neighbour search starts (e.g. when "+short(bad, 120)+")")
-	}
-	// M is spliced out by a contract call with the finder's parent, in the same block
-	removed := false
-	if blk, ok := la.parents[as].(*ast.BlockStmt); ok {
-		for _, s := range blk.List {
-			ast.Inspect(s, func(n ast.Node) bool {
-				call, ok := n.(*ast.CallExpr)
-				if !ok || len(call.Args) != 2 {
-					return true
-				}
-				fn := callee(la.info, call)
-				if fn == nil || contracts[fn.Origin()] == nil {
-					return true
-				}
-				a0, ok0 := call.Args[0].(*ast.Ident)
-				a1, ok1 := call.Args[1].(*ast.Ident)
-				if ok0 && ok1 && la.info.ObjectOf(a0) == la.info.ObjectOf(mID) && la.info.ObjectOf(a1) == la.info.ObjectOf(pID) {
-					removed = true
-				}
-				return true
-			})
-		}
-	}
-	c.Run.Oblige(removed)
-	if !removed {
-		c.violate("bst-links", site, detail+" source", as.Pos(), "the value of "+mID.Name+" is copied into "+nID.Name+" but "+mID.Name+" is not unlinked (with the parent its search returned) on the same path: the value would be in the tree twice")
-	}
 }
